@@ -29,6 +29,8 @@ type ModClause struct {
 	Nothing  bool
 	Ghosts   []string // modifies ghost a, b
 	Heaps    []string // modifies heap F.x.y (assumed functions: which heaps may change)
+	Objs     []Expr   // modifies e1, e2 [when cond]: typed objects (a clause only concerns heaps its object's type lives in)
+	When     Expr     // optional condition (evaluated in the pre-state)
 	FieldsOf string   // modifies fields T of EXPR: all field heaps of struct type T, at object EXPR
 	Var      string   // modifies r :: pred(r)
 	Pred     Expr
@@ -382,17 +384,23 @@ func (s *Specs) LoadFile(path string, commentPrefix string) error {
 			default:
 				c := strings.Index(rest, "::")
 				if c < 0 {
-					// sugar: modifies e1, e2  => r :: r == e1 || r == e2
-					var parts []string
-					for _, p := range splitTop(rest) {
-						parts = append(parts, "$r == ("+p+")")
+					// modifies e1, e2 [when cond]
+					objs := rest
+					if i := strings.Index(rest, " when "); i >= 0 {
+						objs = rest[:i]
+						we, err := ParseExpr(rest[i+6:])
+						if err != nil {
+							return perr(it, "%v", err)
+						}
+						mc.When = we
 					}
-					mc.Var = "$r"
-					e, err := ParseExpr(strings.Join(parts, " || "))
-					if err != nil {
-						return perr(it, "%v", err)
+					for _, p := range splitTop(objs) {
+						oe, err := ParseExpr(p)
+						if err != nil {
+							return perr(it, "%v", err)
+						}
+						mc.Objs = append(mc.Objs, oe)
 					}
-					mc.Pred = e
 				} else {
 					mc.Var = strings.TrimSpace(rest[:c])
 					e, err := ParseExpr(rest[c+2:])
